@@ -437,6 +437,50 @@ func c06Frame(r *Rng, bs []bool) []bool {
 	return append(out, c06White(t)...)
 }
 
+// c06ClipAlign: the symbol is clipped by the image edge.  The row is cut right after its last black pixel, or one
+// pixel before, or at a random run boundary (so that a bar / the termination bar / a guard is the LAST thing in the row,
+// with no quiet zone after it), optionally mirrored (first black pixel at x = 0), and usually padded with white on the
+// other side so that the row length is an exact multiple of 32: BitArray.Get does no bounds check, so an index one past
+// the end only faults when it also leaves the last word.
+func c06ClipAlign(r *Rng, bs []bool) []bool {
+	last := -1
+	for i, b := range bs {
+		if b {
+			last = i
+		}
+	}
+	if last < 0 {
+		return bs
+	}
+	cut := last + 1
+	switch r.Intn(4) {
+	case 0:
+		cut = last // last black pixel itself clipped
+	case 1: // some run boundary
+		var bounds []int
+		for i := 1; i < len(bs); i++ {
+			if bs[i] != bs[i-1] {
+				bounds = append(bounds, i)
+			}
+		}
+		if len(bounds) > 0 {
+			cut = bounds[r.Intn(len(bounds))]
+		}
+	}
+	out := append([]bool{}, bs[:cut]...)
+	if r.Chance(0.7) {
+		if pad := (32 - len(out)%32) % 32; pad > 0 {
+			out = append(c06White(pad), out...)
+		}
+	}
+	if r.Chance(0.3) { // the same at the left edge
+		for i, j := 0, len(out)-1; i < j; i, j = i+1, j-1 {
+			out[i], out[j] = out[j], out[i]
+		}
+	}
+	return out
+}
+
 // c06GenRow builds one row for a decoder; class describes how.
 func c06GenRow(r *Rng, d *c06RowDec) ([]bool, string) {
 	switch r.Intn(12) {
@@ -626,7 +670,7 @@ func c06RowHints(r *Rng) (map[gozxing.DecodeHintType]interface{}, string) {
 func c06RowCall(c *Ctx, d *c06RowDec, r *Rng, bs []bool, class string) {
 	dec, cfg := d.New(r)
 	hints, hd := c06RowHints(r)
-	row := rowFromBits(bs)
+	row := rowFromBitsVia(bs, r.Intn(c20Paths), r) // the decoders must not depend on how the row was allocated
 	rn := r.Intn(50)
 	c06Judge(c, c06Case{Entry: d.Name + "-row", Class: class,
 		Desc: fmt.Sprintf("row %s[%s] %s rn=%d %s", d.Name, cfg, hd, rn, bitsStr(bs))},
@@ -661,6 +705,10 @@ func c06Rows(c *Ctx) {
 	c.Parallel(len(c06RowDecs)*per, 16, func(i int, r *Rng) {
 		d := &c06RowDecs[i%len(c06RowDecs)]
 		bs, class := c06GenRow(r, d)
+		if r.Chance(0.3) {
+			bs = c06ClipAlign(r, bs)
+			class += "+clipped-at-edge"
+		}
 		if len(bs) == 0 {
 			bs = []bool{false}
 		}
